@@ -528,3 +528,244 @@ Example stopping_until_reaped_then_stopped_example :
   let w := Model.run 10 [ex_ok] ex_g [mkPass 5 [] [0] []; mkPass 30 [ARpc 1 (RStop 0%nat false)] [] [0]] in
   exists l r, out w = l ++ EState 0%nat STOPPING STOPPED 1000 true :: EWait 1000 15 :: r.
 Proof. vm_compute. eexists [_], _. reflexivity. Qed.
+
+(* ====================================================================== *)
+(* B1 on whole runs: every signal the daemon sends goes to a child it forked.
+   Invariant: every process that has a pid was forked with that pid (the EFork is in the trace), and every
+   EKill in the trace has, before it, the EFork of the pid it addresses (the pid itself, or minus the pid
+   for a process group).  Proved with the generic upper layer of PolicyRun (pass_kx). *)
+Fixpoint kills_ok (o : list effect) : Prop :=
+  match o with
+  | [] => True
+  | EKill tg _ _ :: r => (exists j q, In (EFork j q) r /\ (tg = q \/ tg = - q)) /\ kills_ok r
+  | _ :: r => kills_ok r
+  end.
+Definition kf_loc (j : nat) (p : proc) (o : list effect) : Prop := pid p <> 0 -> In (EFork j (pid p)) o.
+Definition KF (w : world) : Prop := kills_ok (out w) /\ forall j, kf_loc j (procs w j) (out w).
+
+Ltac kfleaf j :=
+  unfold kf_loc in *; unfold kill_target; pcbv; cbn [kills_ok];
+  repeat match goal with |- _ /\ _ => split end;
+  first [ assumption
+        | intros ? ?; cbn [In]; solve [auto 12]
+        | let H := fresh "H" in intros H; cbn [In]; first [ solve [auto 12] | exfalso; lia | exfalso; congruence ]
+        | eexists j, _; split;
+          [ cbn [In]; solve [auto 12]
+          | repeat match goal with |- context [if ?c then _ else _] => destruct c end; solve [auto] ] ].
+
+Section KillsForked.
+Variable U : Z.
+Variable pconfs : list pconf.
+Variable gconfs : list gconf.
+Notation cf := (Model.cf pconfs).
+Notation run := (Model.run U pconfs gconfs).
+
+Definition kfpost {A} (j : nat) (o : list effect) : spost A :=
+  fun _ _ p' o' => kills_ok o' /\ kf_loc j p' o' /\ forall e, In e o -> In e o'.
+
+Ltac kfstart p Hk Hf := pdestr p; unfold kfpost; unfold kf_loc in Hf; pcbv_in Hf.
+
+Lemma transition_kf j s p o t md :
+  PI s p -> kills_ok o -> kf_loc j p o -> sx j (Model.transition U pconfs j) s p o t md (kfpost j o).
+Proof.
+  intros HPI Hk Hf. kfstart p Hk Hf.
+  pose proof HPI as (_ & _ & Hlive & Hdead); destruct s; cbn [live_state dead_state] in Hlive, Hdead; pcbv_in Hlive; pcbv_in Hdead;
+  try specialize (Hlive eq_refl); try specialize (Hdead eq_refl); try subst.
+  all: unfold Model.transition, Model.spawn, Model.give_up, Model.kill; cbv zeta.
+  all: xstep; xstep; apply sx_rollback; cbn [adjust_times]; pcbv; padj.
+  all: xrun.
+  all: try solve [kfleaf j].
+  all: try xarith.
+Qed.
+
+Ltac kfstates HPI s :=
+  pose proof HPI as (_ & _ & Hlive & Hdead); destruct s; cbn [live_state dead_state] in Hlive, Hdead;
+  pcbv_in Hlive; pcbv_in Hdead; try specialize (Hlive eq_refl); try specialize (Hdead eq_refl); try subst.
+
+Lemma spawn_kf j s p o t md :
+  PI s p -> kills_ok o -> kf_loc j p o -> spawnable s = true \/ s = STOPPING ->
+  sx j (Model.spawn U pconfs j) s p o t md (kfpost j o).
+Proof.
+  intros HPI Hk Hf Hs. kfstart p Hk Hf. kfstates HPI s.
+  all: destruct Hs as [Hs | Hs]; try discriminate Hs.
+  all: unfold Model.spawn; xrun.
+  all: try solve [kfleaf j].
+  all: try xarith.
+Qed.
+
+Lemma stop_kf j s p o t md :
+  PI s p -> kills_ok o -> kf_loc j p o -> killable s = true -> sx j (Model.stop U pconfs j) s p o t md (kfpost j o).
+Proof.
+  intros HPI Hk Hf Hs. kfstart p Hk Hf. kfstates HPI s; try discriminate Hs.
+  all: unfold Model.stop, Model.kill; xrun.
+  all: try solve [kfleaf j].
+  all: try xarith.
+Qed.
+
+Lemma give_up_kf j p o t md :
+  kills_ok o -> kf_loc j p o -> sx j (Model.give_up U j) BACKOFF p o t md (kfpost j o).
+Proof. intros Hk Hf. kfstart p Hk Hf. unfold Model.give_up. xrun. kfleaf j. Qed.
+
+Lemma signal_kf j sg s p o t md :
+  PI s p -> kills_ok o -> kf_loc j p o -> in_signallable_states s = true ->
+  sx j (Model.signal U j sg) s p o t md (kfpost j o).
+Proof.
+  intros HPI Hk Hf Hs. kfstart p Hk Hf. kfstates HPI s; try discriminate Hs.
+  all: unfold Model.signal; xrun.
+  all: try solve [kfleaf j].
+  all: try xarith.
+Qed.
+
+Lemma rollback_kf j t0 s p o t md :
+  kills_ok o -> kf_loc j p o -> sx j (Model.rollback_adjust U pconfs j t0) s p o t md (kfpost j o).
+Proof.
+  intros Hk Hf. kfstart p Hk Hf. apply sx_tail. apply sx_rollback.
+  destruct s; cbn [adjust_times]; pcbv; padj; xrun.
+  all: try solve [kfleaf j].
+Qed.
+
+Lemma finish_kf j st s p o t md :
+  PI s p -> kills_ok o -> kf_loc j p o -> pid p <> 0 -> sx j (Model.finish U pconfs j st) s p o t md (kfpost j o).
+Proof.
+  intros HPI Hk Hf Hp. kfstart p Hk Hf. kfstates HPI s; pcbv_in Hp; try congruence.
+  all: unfold Model.finish; cbv zeta.
+  all: xstep; apply sx_rollback; cbn [adjust_times]; pcbv; padj.
+  all: xrun.
+  all: try solve [kfleaf j].
+  all: try (exfalso; destruct HPI as (_ & Hk2 & _); pcbv_in Hk2; destruct (Hk2 eq_refl); discriminate).
+  all: try (exfalso; destruct HPI as (Hk1 & _); pcbv_in Hk1; specialize (Hk1 eq_refl); discriminate).
+  all: try (exfalso; unfold too_quickly in *;
+            match goal with H : (if ?c then _ else _) = true |- _ => destruct c eqn:? end; lia).
+Qed.
+
+Lemma kf_of_sx {A} j (m : Model.M A) (Pre : pstate -> proc -> Prop) :
+  (forall s p o t md, PI s p -> kills_ok o -> kf_loc j p o -> Pre s p -> sx j m s p o t md (kfpost j o)) ->
+  xp KF (fun w => Pre (sts w j) (procs w j)) m.
+Proof.
+  intros H w a w' HK [Hk HF] HP E.
+  destruct (H _ _ _ _ _ (k_pi w HK j) Hk (HF j) HP w eq_refl eq_refl eq_refl eq_refl eq_refl)
+    as (a2 & w2 & E2 & (f1 & f2 & f3 & f4) & (Q1 & Q2 & Q3)).
+  rewrite E2 in E. inversion E; subst a2 w2. split; [exact Q1|].
+  intros j'. destruct (Nat.eq_dec j' j) as [-> | Hj]; [exact Q2|]. destruct (f4 j' Hj) as [_ ->].
+  intros Hp. apply Q3. apply HF. exact Hp.
+Qed.
+
+Lemma KF_emit e w : upper e -> KF w -> KF (set_out (e :: out w) w).
+Proof.
+  intros He [Hk HF]. split.
+  - cbn. destruct e; try exact Hk; destruct He.
+  - intros j Hp. cbn. right. apply HF. exact Hp.
+Qed.
+Lemma KF_modw w w' : sts w' = sts w -> procs w' = procs w -> now w' = now w -> out w' = out w -> KF w -> KF w'.
+Proof. unfold KF. intros _ -> _ -> H. exact H. Qed.
+
+Lemma KF_transition j : xp KF (fun _ => True) (Model.transition U pconfs j).
+Proof.
+  intros w a w' HK HX _ E.
+  apply (kf_of_sx j (Model.transition U pconfs j) (fun _ _ => True)) with (w := w) (a := a); auto.
+  intros. apply transition_kf; assumption.
+Qed.
+Lemma KF_stop j s : killable s = true -> xp KF (fun w => sts w j = s) (Model.stop U pconfs j).
+Proof.
+  intros Hk w a w' HK HX Hs E.
+  apply (kf_of_sx j (Model.stop U pconfs j) (fun s' _ => s' = s)) with (w := w) (a := a); auto.
+  intros s0 p o t md HPI Hko Hf ->. apply stop_kf; assumption.
+Qed.
+Lemma KF_give_up j : xp KF (fun w => sts w j = BACKOFF) (Model.give_up U j).
+Proof.
+  intros w a w' HK HX Hs E.
+  apply (kf_of_sx j (Model.give_up U j) (fun s' _ => s' = BACKOFF)) with (w := w) (a := a); auto.
+  intros s0 p o t md HPI Hko Hf ->. apply give_up_kf; assumption.
+Qed.
+Lemma KF_signal j sg s : in_signallable_states s = true -> xp KF (fun w => sts w j = s) (Model.signal U j sg).
+Proof.
+  intros Hk w a w' HK HX Hs E.
+  apply (kf_of_sx j (Model.signal U j sg) (fun s' _ => s' = s)) with (w := w) (a := a); auto.
+  intros s0 p o t md HPI Hko Hf ->. apply signal_kf; assumption.
+Qed.
+Lemma KF_rollback j w0 : xp KF (fun w => w = w0) (Model.rollback_adjust U pconfs j (now w0)).
+Proof.
+  intros w a w' HK HX Hw E. subst w0.
+  apply (kf_of_sx j (Model.rollback_adjust U pconfs j (now w)) (fun _ _ => True)) with (w := w) (a := a); auto.
+  intros. apply rollback_kf; assumption.
+Qed.
+Lemma KF_spawn j s : True -> spawnable s = true \/ s = STOPPING -> xp KF (fun w => sts w j = s) (Model.spawn U pconfs j).
+Proof.
+  intros _ Hk w a w' HK HX Hs E.
+  apply (kf_of_sx j (Model.spawn U pconfs j) (fun s' _ => s' = s)) with (w := w) (a := a); auto.
+  intros s0 p o t md HPI Hko Hf ->. apply spawn_kf; assumption.
+Qed.
+
+Lemma KF_reap fuel : xp KF (fun _ => True) (Model.reap U pconfs fuel).
+Proof.
+  induction fuel as [|f IH]; intros w a w' HK HX _ E; [inversion E; subst; exact HX|].
+  cbn [Model.reap] in E. unfold bind at 1 in E. unfold getw at 1 in E.
+  destruct (zombies w) as [|[zp st] rest] eqn:Ez; [inversion E; subst; exact HX|].
+  unfold bind at 1 in E. unfold modw at 1 in E. unfold bind at 1 in E. unfold emit at 1 in E.
+  set (w1 := set_out _ _) in E.
+  assert (I1 : inertw w w1) by (subst w1; repeat split; cbn; lia).
+  assert (K1 : K w1) by (eapply K_inert; eassumption).
+  assert (X1 : KF w1).
+  { destruct HX as [Hk HF]. subst w1. split; [exact Hk|]. intros j Hp. cbn. right. apply HF. exact Hp. }
+  destruct (lookup_hist zp (pidhist w)) as [j|] eqn:EL.
+  - apply lookup_hist_in in EL.
+    destruct (finish_run U pconfs j zp st w1 K1 EL) as (w2 & E2 & Ep0 & K3).
+    unfold bind at 1 in E. rewrite E2 in E. unfold bind at 1 in E. unfold modw at 1 in E.
+    assert (X2 : KF w2).
+    { apply (kf_of_sx j (Model.finish U pconfs j st) (fun _ p => pid p <> 0)) with (w := w1) (a := tt); auto.
+      - intros. apply finish_kf; assumption.
+      - destruct (k_hist w1 K1 zp j EL). lia. }
+    eapply (IH _ a w' K3); [exact X2 | exact Logic.I | exact E].
+  - eapply (IH _ a w' K1); [exact X1 | exact Logic.I | exact E].
+Qed.
+
+Theorem kills_forked_step w o :
+  K w -> Forall def_ok (pend w) -> KF w ->
+  let w' := Model.step U pconfs gconfs w o in K w' /\ Forall def_ok (pend w') /\ KF w'.
+Proof.
+  intros HK HP HX. cbv zeta. unfold Model.step. destruct (crashed w || exited w); [auto|].
+  destruct (pass_kx U pconfs gconfs KF (fun _ => True) KF_emit KF_modw KF_transition KF_stop KF_give_up
+                    KF_signal KF_rollback KF_reap KF_spawn o w) as (w' & E & K' & X' & P'); auto.
+  - apply Forall_forall. intros a _. apply act_ok_all.
+  - split; [exact HX | exact HP].
+  - rewrite E. auto.
+Qed.
+
+Theorem kills_forked_run ops : KF (run ops).
+Proof.
+  unfold Model.run.
+  assert (H0 : K world0 /\ Forall def_ok (pend world0) /\ KF world0).
+  { split; [apply K_world0 | split; [constructor|]]. split; [exact Logic.I|]. intros j Hp. exfalso. apply Hp. reflexivity. }
+  revert H0. generalize world0.
+  induction ops as [|o ops IH]; intros w (HK & HP & HX); cbn; [exact HX|].
+  apply IH. apply kills_forked_step; assumption.
+Qed.
+
+Lemma kills_ok_split l tg sg r rest :
+  kills_ok (l ++ EKill tg sg r :: rest) -> exists j q, In (EFork j q) rest /\ (tg = q \/ tg = - q).
+Proof.
+  induction l as [|e l IH]; cbn.
+  - intros [H _]. exact H.
+  - intros H. apply IH. destruct e; try exact H. apply H.
+Qed.
+
+(* B1: in every run, every os.kill addresses a pid that the daemon forked earlier in the run (the pid itself,
+   or minus the pid: the process group) *)
+Theorem kill_effects_target_forked_child ops l tg sg r rest :
+  out (run ops) = l ++ EKill tg sg r :: rest ->
+  exists j q, In (EFork j q) rest /\ (tg = q \/ tg = - q).
+Proof.
+  intros Eo. destruct (kills_forked_run ops) as [Hk _]. rewrite Eo in Hk. exact (kills_ok_split _ _ _ _ _ Hk).
+Qed.
+
+(* ... and at every boundary, every process that has a pid was forked with that pid *)
+Theorem pid_was_forked ops j :
+  let w := run ops in pid (procs w j) <> 0 -> In (EFork j (pid (procs w j))) (out w).
+Proof. cbv zeta. destruct (kills_forked_run ops) as [_ HF]. apply HF. Qed.
+
+End KillsForked.
+
+Example kill_effects_target_forked_child_example :
+  let w := Model.run 10 [ex_grp] ex_g [mkPass 5 [] [0] []; mkPass 30 [ARpc 1 (RStop 0%nat false)] [] [0]] in
+  exists l rest, out w = l ++ EKill (-1000) 15 0 :: rest /\ In (EFork 0%nat 1000) rest.
+Proof. vm_compute. eexists [_; _; _], _. split; [reflexivity|]. cbn. tauto. Qed.
